@@ -82,7 +82,7 @@ pub fn build_initial_small() -> Result<String, String> {
     sc.build(silent())
 }
 
-fn ctx_mint(redeemer: &RData) -> RData {
+pub fn ctx_mint(redeemer: &RData) -> RData {
     RData::Constr(0, vec![RData::I(0.into()), redeemer.clone(), RData::Constr(0, vec![RData::B(vec![0xab; 28])])])
 }
 fn ctx_spend(redeemer: &RData) -> RData {
@@ -90,7 +90,13 @@ fn ctx_spend(redeemer: &RData) -> RData {
     RData::Constr(0, vec![RData::I(0.into()), redeemer.clone(), RData::Constr(1, vec![out_ref, RData::Constr(1, vec![])])])
 }
 
-fn accepts(p: &Program<DeBruijn>, ctx: &RData) -> Result<bool, String> {
+/// a spending context whose script info carries `Some(datum)`
+pub fn ctx_spend_with_datum(datum: &RData) -> RData {
+    let out_ref = RData::Constr(0, vec![RData::B(vec![0; 32]), RData::I(0.into())]);
+    RData::Constr(0, vec![RData::I(0.into()), RData::I(0.into()), RData::Constr(1, vec![out_ref, RData::Constr(0, vec![datum.clone()])])])
+}
+
+pub fn accepts(p: &Program<DeBruijn>, ctx: &RData) -> Result<bool, String> {
     let prog = p.clone().apply_data(rterm::to_impl_data(ctx));
     guarded(move || {
         let n: Program<NamedDeBruijn> = prog.into();
